@@ -54,6 +54,8 @@ func cutEdges(pred func(v ssa.Value, truth bool) bool) func(*ssa.BasicBlock, int
 
 func runC10(p *core.Program, r *core.Report) {
 	c := rc{p, r}
+	// maxChildren and its half are the node capacity the statement is about
+	noSingledOutValue(c, []string{"btree/btree.go"}, namedIntConsts(p, "btree", "maxChildren"))
 	workOnEveryPath(c, "btree.(*BTree).Traverse", "traversal started on every path", "", "", []string{"traverse"}, "Traverse returns on a path that never walks the tree: for some states nothing is visited")
 	const T = "btree.(*BTree)."
 	const N = "btree.(*node)."
